@@ -672,6 +672,9 @@ func main() {
 	}
 	res := lib.NewResult("C08", f)
 	items := gen.C08Exhaustive()
+	if os.Getenv("C08_PART") == "random" {
+		items = nil // diagnostics only: see what the random part finds on its own
+	}
 	nEx := len(items)
 	n := 15000
 	if f.Thorough() {
